@@ -6,6 +6,8 @@
 //!        ev: i<hex> item | e<code> source error | p pending
 //!   dec <req|resp<http>|empty> <none|gzip|deflate|zstd> <max|none> <bufSize> <npolls> Z <k> (<raw|F> <comp>)*k EV <ev>*
 //!        ev: d<hex> data chunk | t<code|none> trailers | e<code> body error | p pending
+//!   pdec … Z <k> … P <j> (<payload> <canonical re-encoding|F>)*j EV …   (prost codec: what prost, called
+//!        directly, makes of every frame payload a naive header walk finds; F = it does not decode)
 //! Observed: one token per poll.  enc: d<hex> | t<code>:<cls> | e<code>:<cls> | p | n
 //!                                dec: m<hex> | e<code>:<cls> | n | p
 use crate::common::*;
@@ -181,34 +183,64 @@ pub fn ztable_tokens(tab: &[(Option<Vec<u8>>, Vec<u8>)]) -> String {
     format!("Z {} {}", parts.len(), parts.join(" ")).trim_end().to_string()
 }
 
+/// What prost itself (called directly, not through tonic) makes of a payload offered as a
+/// `google.protobuf.Any`: its canonical re-encoding, or `None` when it does not decode.
+pub fn oracle_prost(payload: &[u8]) -> Option<Vec<u8>> {
+    <prost_types::Any as prost::Message>::decode(payload).ok().map(|m| prost::Message::encode_to_vec(&m))
+}
+
+/// Every complete frame payload a naive header walk finds in `bytes` (decompressed by the
+/// reference decompressor when its flag is 1), with prost's verdict on it.
+pub fn ptable_for_stream(e: Option<CompressionEncoding>, bytes: &[u8]) -> Vec<(Vec<u8>, Option<Vec<u8>>)> {
+    let mut out = Vec::new();
+    let mut i = 0;
+    while i + 5 <= bytes.len() {
+        let len = u32::from_be_bytes([bytes[i + 1], bytes[i + 2], bytes[i + 3], bytes[i + 4]]) as usize;
+        if i + 5 + len > bytes.len() {
+            break;
+        }
+        let pl = &bytes[i + 5..i + 5 + len];
+        let raw = match (bytes[i], e) {
+            (1, Some(e)) => oracle_decompress(e, pl),
+            _ => Some(pl.to_vec()),
+        };
+        if let Some(raw) = raw {
+            let v = oracle_prost(&raw);
+            out.push((raw, v));
+        }
+        i += 5 + len;
+    }
+    out
+}
+
+pub fn ptable_tokens(tab: &[(Vec<u8>, Option<Vec<u8>>)]) -> String {
+    let mut seen = std::collections::HashSet::new();
+    let mut parts = Vec::new();
+    for (pl, canon) in tab {
+        if seen.insert(pl.clone()) {
+            parts.push(format!("{} {}", hex(pl), canon.as_ref().map(|r| hex(r)).unwrap_or_else(|| "F".into())));
+        }
+    }
+    format!("P {} {}", parts.len(), parts.join(" ")).trim_end().to_string()
+}
+
 // ---------- status classification ----------
 
+/// Who produced a status, judged without reading tonic's message texts (rev1-FA1: rewording a
+/// message is not an alarm): the harness's own doubles mark theirs with the messages `user`
+/// (scripted source / body / trailers) and `codec` (the raw decoder double); every other non-OK
+/// status was made by tonic itself (`t`).  What distinguishes tonic's own statuses for the
+/// property is the code, which is compared exactly.
 pub fn cls_of(st: &Status) -> &'static str {
     let m = st.message();
     if st.code() == tonic::Code::Ok {
         "ok"
     } else if m == "user" {
         "user"
-    } else if m.starts_with("Error, encoded message length too large") {
-        "tooLargeEnc"
-    } else if m.starts_with("Cannot return body with more than 4GB") {
-        "over4G"
-    } else if m.starts_with("protocol error: received message with invalid compression flag") {
-        "badFlag"
-    } else if m.starts_with("protocol error: received message with compressed-flag but no grpc-encoding") {
-        "noEncoding"
-    } else if m.starts_with("Error, decoded message length too large") {
-        "tooLargeDec"
-    } else if m.starts_with("Error decompressing") {
-        "decompress"
     } else if m == "codec" {
         "codec"
-    } else if m.starts_with("Unexpected EOF decoding stream") {
-        "eof"
-    } else if m.starts_with("grpc-status header missing, mapped from HTTP status code") {
-        "http"
     } else {
-        "other"
+        "t"
     }
 }
 
@@ -666,6 +698,30 @@ impl DecCase {
     }
 }
 
+impl DecCase {
+    /// the same case through the real `ProstCodec` (`pdec`), with prost's own verdict on every
+    /// frame payload as a table for the Lean side
+    pub fn pline(&self) -> String {
+        let tab = match self.enc {
+            Some(e) => ztable_for_stream(e, &self.stream),
+            None => vec![],
+        };
+        format!(
+            "pdec {} {} {} {} {} {} {} EV {}",
+            self.dir,
+            enc_name(self.enc),
+            self.max.map(|m| m.to_string()).unwrap_or_else(|| "none".into()),
+            self.buf_size,
+            self.evs.len() + naive_frame_count(&self.stream) + 2 + self.extra_polls,
+            ztable_tokens(&tab),
+            ptable_tokens(&ptable_for_stream(self.enc, &self.stream)),
+            self.evs.join(" ")
+        )
+        .trim_end()
+        .to_string()
+    }
+}
+
 pub fn gen_dir(rng: &mut Rng) -> String {
     match rng.below(6) {
         0 | 1 => "req".into(),
@@ -832,4 +888,133 @@ pub fn gen_dec_hostile(rng: &mut Rng) -> DecCase {
         _ => None,
     };
     DecCase { dir: gen_dir(rng), enc, max, buf_size: *rng.pick(&BUF_SIZES), evs, stream: bytes, extra_polls: 3 + rng.below(6) as usize }
+}
+
+// ---------- hostile and unusual protobuf payloads for the real prost decoder (rev1 S1, seed C07c) ----------
+
+/// A payload prost must refuse (almost always; the `P` table carries prost's own verdict, so a
+/// mutation that happens to stay decodable is still judged correctly): a valid `Any` encoding
+/// with one protobuf-level defect.
+pub fn gen_pb_hostile_payload(rng: &mut Rng) -> Vec<u8> {
+    let mut p = if rng.chance(1, 4) { Vec::new() } else { gen_any_msg(rng, 20) };
+    match rng.below(16) {
+        0 => p.extend([0x0a, 0x80]),                     // length varint truncated by the end of the payload
+        1 => p.push(*rng.pick(&[0x80u8, 0xff, 0x8a])),   // key varint truncated by the end of the payload
+        2 => {
+            let k = 1 + rng.below(7) as usize;           // zero bytes where a field key is expected (tail padding)
+            p.extend(vec![0u8; k]);
+        }
+        3 => p.insert(0, 0),                             // zero key first, fields after it
+        4 => {
+            p.extend(vec![0xff; 10]);                    // over-long key varint (11 bytes)
+            p.push(0x7f);
+        }
+        5 => {
+            p.push(0x0a);                                // over-long length varint
+            p.extend(vec![0x80; 10]);
+            p.push(0x01);
+        }
+        6 => p.extend([0x08, 0x05]),                     // field 1 (string) with wire type varint
+        7 => p.extend([0x15, 1, 2, 3, 4]),               // field 2 (bytes) with wire type fixed32
+        8 => {
+            p.push(*rng.pick(&[0x0eu8, 0x0f, 0x16, 0x17])); // wire types 6 and 7 do not exist
+            p.push(0);
+        }
+        9 => p.extend([0x0a, 0x7f, 0x61, 0x62]),         // length-delimited field longer than the payload
+        10 => p.extend([0x12, 0xff, 0xff, 0xff, 0xff, 0x0f, 0x01]), // bytes field of 4 GiB - 1
+        11 => p.extend([0x0a, 0x02, 0xff, 0xfe]),        // type_url is not UTF-8
+        12 => p.push(0x0c),                              // end-group without a start
+        13 => p.extend([0x1b, 0x18, 0x05]),              // group opened, never closed
+        14 => {
+            let cut = rng.below(p.len() as u64 + 1) as usize; // valid encoding cut anywhere
+            p.truncate(cut);
+            p.push(0x0a);
+            p.push(0x05);
+        }
+        _ => {
+            let n = 1 + rng.below(12) as usize;
+            p = rng.bytes(n);
+        }
+    }
+    p
+}
+
+/// A payload prost accepts although no encoder would write it that way: unknown fields of every
+/// wire type, repeated and reordered fields, non-minimal varints, explicit defaults.  The message
+/// it decodes to is in the case's `P` table.
+pub fn gen_pb_unusual_valid(rng: &mut Rng) -> Vec<u8> {
+    let mut p = Vec::new();
+    let k = 1 + rng.below(4);
+    for _ in 0..k {
+        match rng.below(10) {
+            0 => p.extend([0x18, 0x05]),                              // unknown field 3, varint
+            1 => p.extend([0x22, 0x03, 0x61, 0x62, 0x63]),            // unknown field 4, length-delimited
+            2 => p.extend([0x29, 1, 2, 3, 4, 5, 6, 7, 8]),            // unknown field 5, fixed64
+            3 => p.extend([0x35, 1, 2, 3, 4]),                        // unknown field 6, fixed32
+            4 => p.extend([0x1b, 0x18, 0x05, 0x1c]),                  // unknown group 3 { 3: 5 }
+            5 => p.extend([0x12, 0x01, 0x09, 0x0a, 0x01, 0x61]),      // value before type_url
+            6 => p.extend([0x0a, 0x01, 0x61, 0x0a, 0x01, 0x62]),      // type_url twice (last wins)
+            7 => p.extend([0x0a, 0x82, 0x00, 0x61, 0x62]),            // non-minimal length varint
+            8 => p.extend([0x0a, 0x00, 0x12, 0x00]),                  // explicit defaults
+            _ => p.extend(gen_any_msg(rng, 12)),
+        }
+    }
+    p
+}
+
+/// Hostile input for the prost decoder: a stream of frames some of whose payloads are defective
+/// protobuf (each followed by more frames, so that reading past a payload's end finds bytes),
+/// optionally with a wrong length prefix, under every chunking style, with and without injected
+/// trailers / body errors.
+pub fn gen_pdec_hostile(rng: &mut Rng) -> DecCase {
+    let enc = *rng.pick(&ENCS);
+    let n = 1 + rng.below(4) as usize;
+    let bad_at = rng.below(n as u64) as usize;
+    let mut bytes = Vec::new();
+    let mut starts = Vec::new();
+    for i in 0..n {
+        let m = if i == bad_at || rng.chance(1, 5) {
+            gen_pb_hostile_payload(rng)
+        } else if rng.chance(1, 4) {
+            gen_pb_unusual_valid(rng)
+        } else {
+            gen_any_msg(rng, 30)
+        };
+        starts.push(bytes.len());
+        match enc {
+            Some(e) if rng.chance(1, 3) => bytes.extend(frame(1, &oracle_compress(e, &m))),
+            _ => bytes.extend(frame(0, &m)),
+        }
+    }
+    if rng.chance(1, 5) {
+        // the declared length is a few bytes off: part of the payload / of the next header is read as something else
+        let s = starts[rng.below(starts.len() as u64) as usize];
+        let len = u32::from_be_bytes([bytes[s + 1], bytes[s + 2], bytes[s + 3], bytes[s + 4]]);
+        let k = 1 + rng.below(6) as u32;
+        let new = if rng.chance(1, 2) { len.saturating_sub(k.min(len)) } else { len + k };
+        bytes[s + 1..s + 5].copy_from_slice(&new.to_be_bytes());
+    }
+    let style = rng.below(4);
+    let chunks = chunkings(rng, &bytes, &starts, style);
+    let pend = rng.chance(1, 2);
+    let mut evs = events_from_chunks(rng, chunks, pend);
+    match rng.below(8) {
+        0 => {
+            let pos = rng.below(evs.len() as u64 + 1) as usize;
+            evs.insert(pos, format!("e{}", rng.pick(&[1u8, 2, 13, 14])));
+        }
+        1 => {
+            let pos = rng.below(evs.len() as u64 + 1) as usize;
+            evs.insert(pos, format!("t{}", rng.pick(&["0", "none", "5"])));
+        }
+        2 => evs.push(format!("t{}", rng.pick(&["0", "none", "5"]))),
+        _ => {}
+    }
+    let dir = match rng.below(4) {
+        0 | 1 => "req".to_string(),
+        2 => "resp200".to_string(),
+        _ => gen_dir(rng),
+    };
+    let dir = if dir == "empty" && enc.is_some() { "req".to_string() } else { dir };
+    DecCase { dir, enc, max: if rng.chance(1, 6) { Some(rng.below(40) as usize) } else { None }, buf_size: *rng.pick(&BUF_SIZES), evs, stream: bytes, extra_polls: 3 + rng.below(4) as usize }
 }
